@@ -13,3 +13,16 @@ check('C05', TV,
 NOT_APPLICABLE['C19'] = ('bit-identity of two concrete runs and absence of side effects on caller arrays / global RNG '
                          'have no input dimension a solver can quantify over; the semantic half (re-formulation denotes '
                          'the same program) is decided under C09/C18')
+
+check('C01', TV,
+      'For every model of a bounded ro family the real ro.Model.do_math() output is read as an exact-rational cone '
+      'program P and z3 decides, for EVERY P-feasible point (not only the optimum a solver happens to return) and '
+      'every realisation of the attached uncertainty set, that each robust row, each piece of maxof/minof objectives '
+      'and the epigraph bound hold: the adversary z is eliminated exactly (polytope vertices / ellipsoid support '
+      'function) so that the query is QF_LRA / small QF_NRA; a second layer decides over z alone that the vector '
+      'returned by the real solve() is robustly feasible.',
+      'Trusted: oracle semantics (NumPy on exact polynomials), Lemma V and Lemma S (cross-validated by direct '
+      'bilinear queries in dimension <= 2), z3. Bounded model family (see evidence.bounds); KL/exp-cone sets and '
+      'general p-norm sets are outside; ball-intersect-polytope rows are stretch obligations (may be undecided).',
+      'SMT translation validation (QF_LRA/QF_NRA inclusion queries, block-sliced) of the compiled robust counterpart',
+      'DESIGN.md section 4 C01')
